@@ -1510,13 +1510,16 @@ class AstEval:
 
     async def ast_annassign(self, arg):
         """Execute type hint assignment statement and track __annotations__."""
-        if isinstance(arg.target, ast.Name):
-            annotations = self.sym_table.setdefault("__annotations__", {})
-            if arg.annotation:
-                annotations[arg.target.id] = await self.aeval(arg.annotation)
+        # as in python: the value is assigned first, then the annotation is evaluated; only simple
+        # names are recorded, and annotations inside functions are never evaluated
         if arg.value is not None:
             rhs = await self.aeval(arg.value)
             await self.recurse_assign(arg.target, rhs)
+        if self.curr_func is None and arg.annotation:
+            annotations = self.sym_table.setdefault("__annotations__", {})
+            ann = await self.aeval(arg.annotation)
+            if isinstance(arg.target, ast.Name):
+                annotations[arg.target.id] = ann
 
     async def ast_namedexpr(self, arg):
         """Execute named expression."""
